@@ -6,5 +6,6 @@ CONSTANTS
   DevIndexNotRechecked = FALSE
   DevNoPctDecode = FALSE
   DevLoopLexical = FALSE
+  DevClimbAndReturn = FALSE
 CONSTRAINT Report
 CHECK_DEADLOCK FALSE
